@@ -1070,6 +1070,7 @@ func (t *tScreen) hideCursor() {
 }
 
 func (t *tScreen) draw() {
+	verifSched("draw.begin")
 	// clobber cursor position, because we're going to change it all
 	t.cx = -1
 	t.cy = -1
